@@ -58,6 +58,17 @@ class OpenNdim:
         self.explicit = explicit
 
 
+class OpenRange:
+    """range(x.ndim) for an array with opaque trailing axes: 0 .. explicit-1, then one item standing for every trailing axis number"""
+
+    def __init__(self, explicit):
+        self.explicit = explicit
+
+
+class RestIndex:
+    """an axis number beyond all explicit axes (compares unequal to / greater than every concrete axis number)"""
+
+
 class RestAxes:
     """axis numbers `head` followed by every opaque trailing axis, in place (tuple(range(k, x.ndim)))"""
 
@@ -257,6 +268,8 @@ class Interp:
             return list(v)
         if isinstance(v, (range, zip, enumerate, map, itertools.combinations_with_replacement, itertools.product)):
             return list(v)
+        if isinstance(v, OpenRange):
+            return list(range(v.explicit)) + [RestIndex()]
         if isinstance(v, dict):
             return list(v)
         if isinstance(v, str):
@@ -403,6 +416,11 @@ class Interp:
                 res = l in r
                 return res if isinstance(op, ast.In) else not res
             self.unknown("membership test on abstract values", node)
+        if (isinstance(l, RestIndex) and isinstance(r, int)) or (isinstance(r, RestIndex) and isinstance(l, int)):
+            big_left = isinstance(l, RestIndex)
+            res = {ast.Eq: False, ast.NotEq: True, ast.Gt: big_left, ast.GtE: big_left, ast.Lt: not big_left, ast.LtE: not big_left}.get(type(op))
+            if res is not None:
+                return res
         if isinstance(l, conc) and isinstance(r, conc):
             table = {ast.Eq: lambda a, b: a == b, ast.NotEq: lambda a, b: a != b, ast.Lt: lambda a, b: a < b,
                      ast.LtE: lambda a, b: a <= b, ast.Gt: lambda a, b: a > b, ast.GtE: lambda a, b: a >= b}
@@ -610,6 +628,12 @@ class Interp:
                     if isinstance(item, RestShape) and len(gens) == 1 and len(out) == n0 + 1 and out[-1] == 1 \
                             and isinstance(out[-1], int):
                         out[-1] = RestOnes()
+                    if isinstance(item, RestIndex) and len(gens) == 1 and len(out) == n0 + 1:
+                        # `[f(i) for i in range(x.ndim)]`: the entry for every trailing axis must be the broadcasting 1
+                        if isinstance(out[-1], int) and out[-1] == 1:
+                            out[-1] = RestOnes()
+                        else:
+                            self.unknown("a per-axis list over range(x.ndim) whose entry for the trailing axes is not 1", e)
 
         rec(e.generators, dict(env))
         return out
@@ -689,6 +713,8 @@ class Interp:
             if fn is range:
                 if all(isinstance(a, int) for a in args):
                     return range(*args)
+                if len(args) == 1 and isinstance(args[0], OpenNdim):
+                    return OpenRange(args[0].explicit)
                 if len(args) == 2 and isinstance(args[0], int) and isinstance(args[1], OpenNdim) and 0 <= args[0] <= args[1].explicit:
                     # range(k, x.ndim) for an array with opaque trailing axes: the explicit axes k.. and then all trailing ones
                     return RestAxes(tuple(range(args[0], args[1].explicit)))
